@@ -137,12 +137,103 @@ class AlterForDebugging(Contract):
         "every_replaced_method_returns_exactly_the_original_output"]}
 
 
+V = "mlinsights/plotting/visualize.py"
+
+
+@contract(V + "::pipeline2str", "C16")
+class Pipeline2Str(Contract):
+    """one line per yielded model, indented by indent * nesting depth, naming the model's class (and its columns)"""
+    variants = [(sh, ind) for sh in SHAPES for ind in (3, 0, 2)]
+
+    def setup(self, E, v):
+        p = shapes(E)[v[0]]()
+        return dict(pipe=p, indent=v[1], _p=p)
+
+    def ensures(self, E, a, res, old, off=0):
+        spec = enum_spec(a._p, (0,))
+        ok = isinstance(res, str)
+        out = {"a_string": z3.BoolVal(ok)}
+        if not ok:
+            return out
+        lines = res.split("\n")
+        out["one_line_per_yielded_model"] = z3.BoolVal(len(lines) == len(spec) + off)
+        good = len(lines) == len(spec)
+        if good:
+            for ln, (coor, m) in zip(lines, spec):
+                pad = " " * (a.indent * (len(coor) - 1))
+                cls = "PassThrough" if isinstance(m, str) else m.fields["$class"]
+                body = ln[len(pad):]
+                good = good and ln.startswith(pad) and (body == cls or (body.startswith(cls + "(") and body.endswith(")"))) and not body.startswith(" ")
+        out["each_line_is_indented_by_its_depth_and_names_the_class"] = z3.BoolVal(good)
+        return out
+
+    canaries = {"one_line_more": lambda E, a, res, old: Pipeline2Str().ensures(E, a, res, old, off=1)["one_line_per_yielded_model"]}
+
+
+@contract(V + "::_pipeline_info._get_name", "C16")
+class GetName(Contract):
+    """node names of the graph: every name handed out is new (not among the names handed out before - ANY number of them), is
+    recorded with its info, and starts with the requested prefix"""
+    variants = ["default", "string", "int", "list"]
+    free = ["former_data"]
+
+    def setup(self, E, v):
+        from pyvc.dicts import SymStrMap
+        ctx = {"n": E.int("n0"), "names": SymStrMap.fresh("names")}
+        info = {"name": "step"}
+        d = dict(context=ctx, info=info, data=None, _former=[E.str("col0"), E.str("col1")], _v=v)
+        if v == "string":
+            d["prefix"] = E.str("prefix")
+        elif v == "int":
+            d["prefix"] = 1
+        elif v == "list":
+            d["prefix"] = [E.str("p0"), E.str("p1")]
+        return d
+
+    def closure_env(self, E, a):
+        return dict(former_data=a._former)
+
+    def old(self, E, a):
+        return dict(member=a.context["names"].member, n=a.context["n"], nstored=len(a.context["names"].stored))
+
+    loops = {0: lambda E, L: {"the_counter_only_grows": z(L["context"]["n"]) >= z(L.old("context")["n"]),
+                              "the_suggestion_starts_with_the_prefix": z3.PrefixOf(z(L["prefix"]), z(L["sug"]))}}
+
+    def ensures(self, E, a, res, old, weaker=False):
+        names = a.context["names"]
+        prefixes = {"default": ["-v-"], "string": [a.get("prefix")], "int": [a._former[1]], "list": a.get("prefix")}[a._v]
+        got = res if a._v == "list" else [res]
+        ok = isinstance(got, list) and len(got) == len(prefixes) and all(isinstance(r, str) or (hasattr(r, "sort") and z3.is_string(r)) for r in got)
+        out = {"one_name_per_requested_prefix": z3.BoolVal(ok)}
+        if not ok:
+            return out
+        got = [z(r) for r in got]
+        if weaker:
+            return z3.And(*[z3.Select(old["member"], r) for r in got])
+        out["every_new_name_is_unused_before"] = z3.And(*[z3.Not(z3.Select(old["member"], r)) for r in got])
+        out["new_names_are_pairwise_distinct"] = z3.And(*[got[i] != got[j] for i in range(len(got)) for j in range(i)]) if len(got) > 1 else z3.BoolVal(True)
+        m = old["member"]
+        for r in got:
+            m = z3.Store(m, r, z3.BoolVal(True))
+        out["exactly_the_new_names_are_added"] = names.member == m
+        out["each_new_name_is_recorded_with_its_info"] = z3.BoolVal(
+            len(names.stored) == old["nstored"] + len(got) and all(v is a.info for _, v in names.stored[old["nstored"]:]))
+        out["each_name_starts_with_its_prefix"] = z3.And(*[z3.PrefixOf(z(p), r) for p, r in zip(prefixes, got)])
+        out["the_counter_only_grows"] = z(a.context["n"]) >= z(old["n"])
+        return out
+
+    canaries = {"a_name_already_in_use": lambda E, a, res, old: GetName().ensures(E, a, res, old, weaker=True)}
+
+
 META = dict(
     level="proof", assumptions=["A5", "A6", "A7", "A9"],
     trusted=["nested estimators obey the estimator protocol; Pipeline / FeatureUnion / ColumnTransformer expose .steps / .transformer_list / .transformers as "
              "lists of tuples; types.MethodType binds a function to an instance"],
     not_applicable=["bounded in the shape of the pipeline (4 shapes, nesting depth <= 3), complete in the nested estimators and the data; arbitrary nesting by "
                     "induction would need a recursive generator contract over symbolic-length yields (not built)",
-                    "pipeline2dot / pipeline2str / _pipeline_info: dynamically typed dictionary plumbing - a contract strong enough to carry graph "
-                    "well-formedness would be a re-implementation: bounded stand-in (DOT parsed and checked) only"],
+                    "pipeline2dot / _pipeline_info as a whole: dynamically typed dictionary plumbing - a contract strong enough to carry graph "
+                    "well-formedness would be a re-implementation: bounded stand-in (DOT parsed and checked). What IS proved of it: the name generator "
+                    "_pipeline_info._get_name never hands out a name already in use, for ANY set of names in use (membership as a z3 array String -> Bool), "
+                    "records exactly the new names, and keeps the requested prefix; termination of its search loop is not proved",
+                    "pipeline2str: proved on the 4 shapes x 3 indents (concrete strings)"],
 )
